@@ -149,6 +149,90 @@ Op Gen::primerFor(const Op &op) {
     }
     return pr;
 }
+std::vector<Op> Gen::walk(int n) {
+    std::vector<Op> ops;
+    static const int latlngFns[] = {FN_latLngToCell};
+    static const int cellFns[] = {FN_cellToLatLng, FN_cellToBoundary, FN_cellToParent, FN_cellToCenterChild, FN_cellToChildPos,
+                                  FN_cellToChildrenSize, FN_getIcosahedronFaces, FN_cellAreaRads2, FN_cellToVertexes,
+                                  FN_originToDirectedEdges, FN_isValidCell, FN_h3ToString, FN_maxFaceCount, FN_isPentagon};
+    static const int pairFns[] = {FN_gridDistance, FN_cellToLocalIj, FN_areNeighborCells, FN_cellsToDirectedEdge,
+                                  FN_gridPathCellsSize};
+    double u = r.unit();
+    if (u < 0.3) {
+        // points stepping across an icosahedron edge near its midpoint
+        int fn = latlngFns[0];
+        if (ICOSA_EDGES.empty()) return ops;
+        const IcosaEdge &e = ICOSA_EDGES[r.below(ICOSA_EDGES.size())];
+        double t = r.chance(0.8) ? r.uniform(-0.008, 0.008) : r.uniform(-0.5, 0.5);
+        double step = pow(10.0, r.uniform(-7.5, -4.3)) * (r.chance(0.5) ? 1 : -1);
+        double along = step * r.uniform(-0.5, 0.5);
+        double d = -step * r.uniform(0.2, 0.8) * n;  // start on one side, end on the other
+        if (r.chance(0.5)) {
+            // first a call well inside one of the two faces, as a spatially coherent stream would have made
+            Op op;
+            op.fn = fn;
+            double dd = (d > 0 ? 1 : -1) * r.uniform(0.05, 0.3), p[3], l = 0;
+            for (int k = 0; k < 3; k++) {
+                p[k] = e.m[k] + t * e.u[k] + dd * e.n[k];
+                l += p[k] * p[k];
+            }
+            op.dbls = {asin(p[2] / sqrt(l)), atan2(p[1], p[0])};
+            op.ints = {(int64_t)r.below(16)};
+            op.tag = "walk-prelude";
+            ops.push_back(op);
+        }
+        int res = r.chance(0.7) ? 15 : 11 + (int)r.below(5);
+        for (int i = 0; i < n; i++) {
+            double p[3], l = 0;
+            for (int k = 0; k < 3; k++) {
+                p[k] = e.m[k] + t * e.u[k] + d * e.n[k];
+                l += p[k] * p[k];
+            }
+            Op op;
+            op.fn = fn;
+            op.dbls = {asin(p[2] / sqrt(l)), atan2(p[1], p[0])};
+            op.ints = {res};
+            op.tag = "walk-across-icosa-edge";
+            ops.push_back(op);
+            d += step * r.uniform(0.5, 1.5);
+            t += along;
+        }
+        return ops;
+    }
+    int res = (int)r.below(16);
+    H3Index c = r.chance(0.5) ? nearPentagon(res, 3) : randCell(res);
+    if (u < 0.7) {
+        int fn = cellFns[r.below(sizeof cellFns / sizeof cellFns[0])];
+        int64_t arg = res;
+        if (fn == FN_cellToParent || fn == FN_cellToChildPos) arg = std::max(0, res - (int)r.range(0, 3));
+        if (fn == FN_cellToCenterChild || fn == FN_cellToChildrenSize) arg = std::min(15, res + (int)r.range(0, 3));
+        if (fn == FN_h3ToString) arg = 17;
+        for (int i = 0; i < n; i++) {
+            Op op;
+            op.fn = fn;
+            op.cells = {c};
+            op.ints = {arg};
+            op.tag = "walk-cells";
+            ops.push_back(op);
+            c = r.chance(0.1) ? pentagon(res) : neighborOf(c);
+        }
+        return ops;
+    }
+    int fn = pairFns[r.below(sizeof pairFns / sizeof pairFns[0])];
+    H3Index origin = c;
+    for (int i = 0; i < n; i++) {
+        Op op;
+        op.fn = fn;
+        op.cells = fn == FN_areNeighborCells || fn == FN_cellsToDirectedEdge ? std::vector<uint64_t>{c, neighborOf(c)}
+                                                                             : std::vector<uint64_t>{origin, c};
+        if (fn == FN_cellToLocalIj) op.ints = {0};
+        op.tag = "walk-pairs";
+        ops.push_back(op);
+        c = neighborOf(c);
+        if (r.chance(0.08)) origin = c;
+    }
+    return ops;
+}
 LatLng Gen::centerOf(H3Index c) {
     LatLng g = {0, 0};
     REF.cellToLatLng(c, &g);
